@@ -72,6 +72,7 @@ func vCondStatus(obj map[string]interface{}, typ string) (string, bool) {
 // teardown is done. C06: an archived ObjectSet is left alone and shows no Available condition / controllerOf.
 func VerifC04C06Controller() {
 	c := verifk8s.NewClient()
+	c.PatchAnswersStored = true
 	cache := verifk8s.NewCache()
 	os := &corev1alpha1.ObjectSet{}
 	os.Name, os.Namespace, os.UID = "me", "ns", "uid-me"
